@@ -91,7 +91,7 @@ def run(ctx):
         limit_exact(ctx, cfg)
 
 
-def limit_exact(ctx, cfg, rule="limit-exact"):
+def limit_exact(ctx, cfg, rule="limit-exact", only=None):
     """the 65535-byte limit is applied exactly: reads reject len(message) > 65535 and nothing shorter on account of the
     limit; transport writes reject payload + 16 > 65535 and nothing shorter (interval evaluation of the guards)"""
     from . import nonce as NZ
@@ -106,6 +106,8 @@ def limit_exact(ctx, cfg, rule="limit-exact"):
     ]
     n = 0
     for name, argi, maxok, what in cases:
+        if only is not None and not name.startswith(only):
+            continue
         fn = F.one_fn(name)
         G = ctx.guards(cfg, fn)
         var = ("len", ("arg", argi))
@@ -142,7 +144,7 @@ def limit_exact(ctx, cfg, rule="limit-exact"):
                "%s longer than %d bytes is rejected with Input, and exactly those" % (what, maxok) if rej_ok and acc_ok
                else "the length limit on %s is not exact: rejected lengths %s, accepted lengths %s; the specification allows 0..=%d" % (what, NZ.fmt_set(rej), NZ.fmt_set(acc or []), maxok),
                where(fn), cfg)
-    ctx.floor(rule, n, 5, cfg)
+    ctx.floor(rule, n, 5 if only is None else 2, cfg)
 
 
 def lin_len_fact(f, var):
